@@ -279,6 +279,9 @@ class EvDomain(Domain):
 
     def call_result(self, ex, n, q, base, on, ov, vals, st, fr):
         """abstract result of an external call (containers / smart pointers modelled just enough to keep identities)"""
+        if q in ('std::count_if', 'std::count', 'std::distance', 'std::ranges::count_if') and len(vals) >= 2 and isinstance(vals[0], Sym) and isinstance(vals[1], Sym) \
+                and vals[0].name.endswith('.begin') and vals[1].name == vals[0].name[:-6] + '.end' and self.container_empty(vals[0].name[:-6]) is True:
+            return Lin.const(0)          # nothing to count in a container the row says is empty
         if base in ('begin', 'cbegin'): return Sym(f'{on}.begin')
         if base in ('end', 'cend'): return Sym(f'{on}.end')
         if base in ('front',): return Sym(f'{on}.front')
